@@ -1437,6 +1437,14 @@ func (r *Runner) Step(i int, a *Action) (err error) {
 		}
 		for j := 0; j < n; j++ {
 			kk := (k + j*(1+a.Sel%5)) % r.Cfg.Keys
+			if a.Sel >= 5 {
+				// pattern burst: every read but the last goes to one key, the last one (the read that finds the 16-slot buffer
+				// full when n is a multiple of 17: its event is dropped, its deadline extension is not) to another key
+				kk = k % r.Cfg.Keys
+				if j == n-1 {
+					kk = (k + 1 + a.Sel) % r.Cfg.Keys
+				}
+			}
 			me := r.M[kk]
 			ml := r.live(me)
 			gv, gok := c.GetIfPresent(kk)
